@@ -2062,7 +2062,14 @@ class TypeBlocks(ContainerOperand):
                 columns += b.shape[1]
             blocks.append(b)
 
-        row_dtype = resolve_dtype_iter(b.dtype for b in blocks)
+        if blocks:
+            row_dtype = resolve_dtype_iter(b.dtype for b in blocks)
+        else: # no columns selected (or none exist): an empty array, shaped by the row selection alone
+            row_dtype = None
+            if row_key is None:
+                rows = self._shape[0]
+            elif not isinstance(row_key, INT_TYPES):
+                rows = len(np.arange(self._shape[0])[row_key])
         row_multiple = row_key is None or isinstance(row_key, KEY_MULTIPLE_TYPES)
 
         return self._blocks_to_array(
